@@ -4,6 +4,7 @@
 EXTENDS Wakeup, Json
 
 CONSTANTS w1, w2, MaxLen,
+          W2Window,    \* w2 starts only while the runtime thread is at one of these program counters ({} = no restriction)
           LateRounds   \* w2 starts only after the runtime has completed that many loop rounds (flag = AWAKE windows)
 TgtMT == (w1 :> "main") @@ (w2 :> "t1")
 TgtTT == (w1 :> "t1") @@ (w2 :> "t1")
@@ -26,7 +27,7 @@ GNext ==
   /\ IF Internal
        THEN \E w \in Wakers : WPushAfterWake(w) /\ UNCHANGED hist
        ELSE \/ \E w \in Wakers :
-                 \/ (w = w2 => rounds >= LateRounds) /\ WBegin(w) /\ Step(WName(w), "WBegin", "w.begin", FALSE)
+                 \/ (w = w2 => (rounds >= LateRounds /\ (W2Window = {} \/ pcR \in W2Window))) /\ WBegin(w) /\ Step(WName(w), "WBegin", "w.begin", FALSE)
                  \/ WStartSched(w) /\ Step(WName(w), "WStartSched", "exec.state.start_scheduling", FALSE)
                  \/ WReserve(w) /\ Step(WName(w), "WReserve", "exec.remote.reserve", FALSE)
                  \/ (pcW[w] = "push" /\ WPush(w) /\ Step(WName(w), "WPush", "exec.remote.push", FALSE))
